@@ -71,6 +71,11 @@ def drive(sc):
     trace = []
     with warnings.catch_warnings():
         warnings.simplefilter("ignore")
+        # history: a sampler of the same method with range-widening options was used before in this process
+        wide = {"uniform": {"loc": -3.0, "scale": 6.0}, "truncnorm": {"a": -4.0, "b": 4.0}, "norm": {"scale": 3.0}}.get(method)
+        if wide is not None:
+            cfg_w = dict(cfg, samplers=[{"method": method, "options": wide, "shared": bool(sc["shared"])}] * len(cfg["samplers"]))
+            plugin.create(EnOptConfig.model_validate(cfg_w), 0, masks[0], default_rng(1)).generate_samples()
         samplers = [plugin.create(config, i, m, rng) for i, m in enumerate(masks)]
         ref_engine = None
         D = int(mask.sum())
@@ -85,6 +90,8 @@ def drive(sc):
                 if i == 0 and ref_engine is not None:
                     ref = qmc.scale(ref_engine.random(N), [-1.0] * D, [1.0] * D)
                 trace.append(observe(sc, m, samples, outcome, ref, method))
+                if samples is not None and samples.flags.writeable:
+                    samples += 3.25        # callers (ropt itself: `samples += other.generate_samples()`) modify the returned array
     feats = {"nontrivial": bool((1 if sc["shared"] else R) * P >= 2 and mask.sum() >= 2), "key": str(sc), "method": method,
              "qmc": method in ENGINES}
     return trace, feats
